@@ -131,6 +131,28 @@ func c03Gen(c *core.Ctx) func(yield func(c03Case) bool) {
 		if !ok {
 			return
 		}
+		// lazy components on the graph (created only when an eager component needs them, or by the
+		// look-ups after the start), one substituted node at every timing
+		allGraphs(3, three, false, func(e [][]int) bool {
+			for lz := 1; lz < 8; lz++ {
+				lazy := []bool{lz&1 == 1, lz&2 == 2, lz&4 == 4}
+				for node := 0; node < 3; node++ {
+					for plan := 1; plan < scen.NumWrapPlans; plan++ {
+						w := []int{0, 0, 0}
+						w[node] = plan
+						for _, base := range [][]int{{0, 1, 2}, {2, 1, 0}} {
+							if ok = yield(c03Case{scen.GraphProg{N: 3, Edges: e, Lazy: lazy, Wrap: w, Base: base, Family: "n3-lazy"}, 0}); !ok {
+								return false
+							}
+						}
+					}
+				}
+			}
+			return true
+		})
+		if !ok {
+			return
+		}
 		// substitution from before-instantiation (the container short-cuts creation and publishes
 		// what the processor answered: a substitute, or the component itself), alone and next to one
 		// other node substituted at any later timing
@@ -196,46 +218,68 @@ func c03Run(c *core.Ctx) {
 			if !o.OK() {
 				return // failing is always allowed by C03 (panics / hangs are C09 / C02 matters)
 			}
-			// every holder's value for t and the by-name lookup of t are one object
-			for t := 0; t < p.N; t++ {
-				if len(p.Lazy) > t && p.Lazy[t] {
-					scen.Guard(func() { o.Fin[t], o.FinErr[t] = o.App.GetComponentByName(scen.Name(t, p.N)) })
-					if o.FinErr[t] != nil || o.Fin[t] == nil {
-						// an on-demand creation may fail (the container is allowed to be conservative)
-						o.Fin[t] = nil
-						continue
-					}
-				}
-				if o.FinErr[t] != nil || o.Fin[t] == nil {
-					c.Report(key("lookup"), "lookup-failed", fmt.Sprintf("by-name lookup of %s failed after a successful start: %v (events: %s)", scen.Name(t, p.N), scen.FirstLine(o.FinErr[t]), strings.Join(o.RT.Log, " ")), cc)
-					return
-				}
-				if b := scen.NodeOf(o.Fin[t]); b == nil || b.Idx != t {
-					c.Report(key("wrongtarget"), "wrong-component", fmt.Sprintf("by-name lookup of %s returned %s", scen.Name(t, p.N), describe(o.Fin[t])), cc)
-					return
-				}
+			// every holder's value for t and the by-name lookup of t are one object. Pass 1: the
+			// components the start created (eager ones and what they needed). Pass 2: the remaining
+			// lazy ones are created on demand, one look-up after the other; such a creation may fail
+			// (the container is allowed to be conservative), and what a failed on-demand creation
+			// leaves behind is outside this property (DESIGN §6): the check of this execution ends there.
+			created := refGraph(p).created
+			// what every holder holds right after Run, before any look-up of a lazy component (a
+			// look-up may re-create and re-populate a component the container dropped)
+			slotsOf := func(n *scen.N) []scen.Iface {
+				return append([]scen.Iface{n.S0, n.S1, n.S2, n.S3, n.S4, n.S5}, n.L0...)
 			}
-			for i := 0; i < p.N; i++ {
-				n := o.Nodes[i]
-				vals := []scen.Iface{n.S0, n.S1, n.S2, n.S3, n.S4, n.S5}
-				vals = append(vals, n.L0...)
-				for _, v := range vals {
-					if v == nil {
+			atReturn := make([][]scen.Iface, p.N)
+			for i := range atReturn {
+				atReturn[i] = slotsOf(o.Nodes[i])
+			}
+			check := func(onlyCreated bool) bool {
+				for t := 0; t < p.N; t++ {
+					if onlyCreated && !created[t] {
 						continue
 					}
-					b := scen.NodeOf(v)
-					if b == nil {
-						continue
+					if o.Fin[t] == nil && o.FinErr[t] == nil {
+						scen.Guard(func() { o.Fin[t], o.FinErr[t] = o.App.GetComponentByName(scen.Name(t, p.N)) })
 					}
-					if o.Fin[b.Idx] == nil {
-						continue // lazy component whose on-demand creation failed: nothing published
+					if o.FinErr[t] != nil || o.Fin[t] == nil {
+						if created[t] {
+							c.Report(key("lookup"), "lookup-failed", fmt.Sprintf("by-name lookup of %s failed after a successful start: %v (events: %s)", scen.Name(t, p.N), scen.FirstLine(o.FinErr[t]), strings.Join(o.RT.Log, " ")), cc)
+						}
+						return false
 					}
-					if !sameObject(v, o.Fin[b.Idx]) {
-						c.Report(key("stale"), "stale-version",
-							fmt.Sprintf("start-up succeeded, but %s holds version %s of %s while the container publishes %s", n.Nm, version(v), b.Nm, version(o.Fin[b.Idx])), cc)
-						return
+					if b := scen.NodeOf(o.Fin[t]); b == nil || b.Idx != t {
+						c.Report(key("wrongtarget"), "wrong-component", fmt.Sprintf("by-name lookup of %s returned %s", scen.Name(t, p.N), describe(o.Fin[t])), cc)
+						return false
 					}
 				}
+				for i := 0; i < p.N; i++ {
+					if onlyCreated && !created[i] {
+						continue
+					}
+					n := o.Nodes[i]
+					vals := slotsOf(n)
+					if onlyCreated {
+						vals = atReturn[i]
+					}
+					for _, v := range vals {
+						if v == nil {
+							continue
+						}
+						b := scen.NodeOf(v)
+						if b == nil || o.Fin[b.Idx] == nil {
+							continue
+						}
+						if !sameObject(v, o.Fin[b.Idx]) {
+							c.Report(key("stale"), "stale-version",
+								fmt.Sprintf("start-up succeeded, but %s holds version %s of %s while the container publishes %s", n.Nm, version(v), b.Nm, version(o.Fin[b.Idx])), cc)
+							return false
+						}
+					}
+				}
+				return true
+			}
+			if check(true) {
+				check(false)
 			}
 		}
 		if c.ReplayCase != nil {
